@@ -274,7 +274,7 @@ def run(ctx):
     ctx.coq_props()
     rng = ctx.rng
     big = ctx.tier != "quick"
-    n_route, n_hist = (700, 1100) if not big else (5000, 8000)
+    n_route, n_hist = (550, 900) if not big else (5000, 8000)
     routes = list(CORPUS_ROUTE)
     while len(routes) < n_route:
         routes.append(gen_route(rng, big and rng.random() < 0.3))
